@@ -8,7 +8,7 @@ From Coq Require Import List NArith ZArith Bool Arith.
 From Coq Require String.
 Import String.StringSyntax.
 From PQ Require Import Base.Bytes Base.Varint Base.BitPack Thrift.Compact.
-From PQ Require Import Enc.DeltaBP Enc.Rle Enc.RleProofs Enc.Plain Enc.ByteArrayDelta.
+From PQ Require Import Enc.DeltaBP Enc.Rle Enc.RleProofs Enc.Plain Enc.PlainFast Enc.ByteArrayDelta.
 From PQ Require Import Crc.Model Codec.Snappy.
 Import ListNotations.
 Open Scope N_scope.
@@ -194,7 +194,7 @@ Definition decode_values (ty : Z) (tlen : nat) (enc : Z) (dict : list bytes) (n 
   else if (enc =? 9)%Z then
     let k := fixed_width ty tlen in
     match sub data 0 (k * n) with
-    | Some x => bss_dec k x
+    | Some x => bss_dec_fast k x   (* = bss_dec k x (Enc/PlainFastProofs.v bss_dec_fast_eq), linear time *)
     | None => None
     end
   else if (enc =? 3)%Z then
@@ -489,6 +489,30 @@ Definition check (cond : bool) (code : string) : list string := if cond then [] 
 Definition in_z (x : Z) (l : list tval) : bool :=
   existsb (fun t => match t with TInt _ z => (z =? x)%Z | _ => false end) l.
 
+(* encoding_stats (ColumnMetaData field 13, optional; PageEncodingStats = 1: page_type,
+   2: encoding, 3: count): "number of pages of this type with this encoding".  For every
+   (page type, encoding) pair that occurs in a page header of the chunk or in an entry of
+   the list, the counts declared must add up to the number of page headers found. *)
+Definition stat_is (ty enc : Z) (st : tval) : bool :=
+  (zdef (get_int 1 st) (-1) =? ty)%Z && (zdef (get_int 2 st) (-1) =? enc)%Z.
+
+Definition declared_pages (ty enc : Z) (stats : list tval) : N :=
+  fold_left N.add (map (n_of_field 3) (filter (stat_is ty enc) stats)) 0.
+
+Definition found_pages (ty enc : Z) (ps : list page) : N :=
+  N.of_nat (length (filter (fun p => (p_type p =? ty)%Z && (p_encoding p =? enc)%Z) ps)).
+
+Definition encoding_stats_ok (c : chunk) : bool :=
+  match get_list 13 (c_meta c) with
+  | None => true
+  | Some stats =>
+      forallb (fun p => declared_pages (p_type p) (p_encoding p) stats =? found_pages (p_type p) (p_encoding p) (c_pages c))
+              (c_pages c)
+      && forallb (fun st => let ty := zdef (get_int 1 st) (-1) in
+                            let enc := zdef (get_int 2 st) (-1) in
+                            declared_pages ty enc stats =? found_pages ty enc (c_pages c)) stats
+  end.
+
 Definition check_chunk (c : chunk) : list string :=
   let md := c_meta c in
   let dps := data_pages c in
@@ -515,7 +539,8 @@ Definition check_chunk (c : chunk) : list string :=
                               | _, _ => true end) dps) "v2_page_starts_mid_row"
   ++ check (forallb (fun p => forallb (fun d => (d <=? N.of_nat (l_maxd (c_leaf c)))%N) (p_def p)
                               && forallb (fun r => (r <=? N.of_nat (l_maxr (c_leaf c)))%N) (p_rep p)) dps) "level_range"
-  ++ check (Z.eqb (zdef (get_int 1 md) (-1)) (l_type (c_leaf c))) "column_type".
+  ++ check (Z.eqb (zdef (get_int 1 md) (-1)) (l_type (c_leaf c))) "column_type"
+  ++ check (encoding_stats_ok c) "encoding_stats".
 
 Definition check_group (g : row_group) : list string :=
   let nrows := nat_of_field 3 (g_meta g) in
@@ -548,6 +573,10 @@ Definition check_offset_index (c : chunk) (oi : tval) : list string :=
                        (nat_of_field 3 loc =? acc)%nat
                        && rows (acc + (if (l_maxr (c_leaf c) =? 0)%nat then p_nvalues p else count_eq 0 (p_rep p)))%nat r
                    end) 0%nat (combine locs dps)) "page_location_first_row_index"
+      (* a chunk described by an offset index is addressed by rows: every data page (v1 as
+         well as v2) begins with the first value of a row *)
+      ++ check (forallb (fun p => match p_rep p with r :: _ => (r =? 0)%N | [] => true end) dps)
+           "indexed_page_starts_mid_row"
   end.
 
 Definition offset_index_of (file : fbytes) (c : chunk) : option tval :=
